@@ -1,4 +1,4 @@
-import GnoVerif.Proofs.C14Frame
+import GnoVerif.Proofs.C14Genesis
 /-!
 C14 — coin supply is conserved and balance / account records stay well-formed.
 
@@ -97,6 +97,54 @@ theorem accounts_under_own_address (tier : Denom → Bool) (s : State) (h : Inv 
     (∀ e₁ ∈ s.accts, ∀ e₂ ∈ s.accts, e₁.2.num = e₂.2.num → e₁.1 = e₂.1) :=
   ⟨h.1.acct_key, h.1.acct_nodup, h.1.acct_num, h.1.acct_num_inj⟩
 
+/-- every single balance (of either tier) lies between 0 and the recorded supply of
+its denom — hence fits int64. -/
+theorem balance_le_supply (tier : Denom → Bool) (s : State) (h : Inv tier s) (a : Addr) (d : Denom) :
+    0 ≤ balance tier s a d ∧ balance tier s a d ≤ getSupply s d ∧ getSupply s d ≤ maxInt64 := by
+  have h1 := splitTotal_nonneg h.1 d
+  have h2 := acctTotal_nonneg h.1 d
+  have h3 := h.2.1 d
+  unfold total at h3
+  refine ⟨?_, ?_, h.2.2 d⟩
+  · unfold balance
+    split
+    · cases hg : getAcct s a with
+      | none => simp
+      | some x =>
+        simp only
+        exact sumOf_nonneg _ (fun c hc =>
+          (coinsValid_mem _ (h.1.acct_coins _ (find_some_mem _ _ _ hg)).1 c hc).2) d
+    · exact getSplit_nonneg h.1 a d
+  · unfold balance
+    split
+    · cases hg : getAcct s a with
+      | none => simp only; omega
+      | some x =>
+        simp only
+        have := acct_le_acctTotal h.1 a x hg d
+        omega
+    · have := getSplit_le_splitTotal h.1 a d
+      omega
+
+/-! ## genesis -/
+
+/-- the genesis path of the bank keeper — `SetCoins` for every balance entry, then
+`RecomputeSupply` — ends, when it does not abort, in a state satisfying the invariant … -/
+theorem genesis_establishes_inv (tier : Denom → Bool) (bals : List (Addr × Coins)) (s : State)
+    (hg : genesis tier bals = (s, none)) : Inv tier s :=
+  genesis_ok hg
+
+/-- … which every later history of committed steps preserves. -/
+theorem inv_after_genesis (tier : Denom → Bool) (bals : List (Addr × Coins)) (s : State)
+    (hg : genesis tier bals = (s, none)) (ops : List Op) : Inv tier (run tier s ops) :=
+  inv_run tier s ops (genesis_ok hg)
+
+/-- `RecomputeSupply` alone re-establishes the invariant on any well-formed records
+(e.g. after keeper-level `AddCoins` / `SetCoins` calls). -/
+theorem recompute_establishes_inv (tier : Denom → Bool) (s s' : State) (h : WF tier s)
+    (hr : recomputeSupply s = (s', none)) : Inv tier s' :=
+  recomputeSupply_ok h hr
+
 /-! ## only mint / burn change supply; transfers conserve -/
 
 /-- only explicit mint/burn operations change the supply records: every other raw
@@ -188,6 +236,24 @@ theorem raw_burn_atomic (tier : Denom → Bool) (s s' : State) (a : Addr) (amt :
     (h : burnCoins tier s a amt = (s', some e)) : s' = s :=
   burnCoins_fail tier s s' a amt e h
 
+/-- under the invariant raw `SendCoins` and `SendCoinsUnrestricted` (subtract, then
+add) are atomic too: the add that follows a successful subtract of the same coins
+cannot overflow, because Σ balances = supply ≤ MaxInt64. -/
+theorem raw_send_atomic_under_inv (tier : Denom → Bool) (s s' : State) (f t : Addr) (amt : Coins) (e : Fail)
+    (h : Inv tier s) :
+    (sendCoins tier s f t amt = (s', some e) → s' = s) ∧
+    (sendCoinsUnrestricted tier s f t amt = (s', some e) → s' = s) := by
+  constructor
+  · intro hr
+    unfold sendCoins at hr
+    split at hr
+    · simp at hr
+    · split at hr
+      · simp at hr; exact hr.1.symm
+      · exact sendCore_fail_under_inv h hr
+  · intro hr
+    exact sendCore_fail_under_inv h hr
+
 /-! ### concrete witnesses (account tier = {"ugnot"}, as on gno.land) -/
 
 def tierG (d : Denom) : Bool := d == "ugnot"
@@ -214,6 +280,23 @@ theorem raw_multisend_partial_counterexample :
    inv_reachable _ _, by decide, by decide, by decide,
    failed_step_is_noop _ _ _ (.err "insufficient") (by decide)⟩
 
+/-- without the invariant raw `sendCoins` is NOT atomic: when keeper-level credits have
+pushed Σ balances past MaxInt64, the add overflows (panic) after the subtract was
+written, and 5 coins vanish.  (Witness: corpus/C14/raw-send-overflow.ops.) -/
+theorem raw_send_partial_from_broken_state :
+    ∃ s, (sendCoins tierG s 1 0 [⟨"atom", 5⟩]).2 = some (.panic "overflow") ∧
+      total s "atom" = 9223372036854775807 + 5 ∧
+      total (sendCoins tierG s 1 0 [⟨"atom", 5⟩]).1 "atom" = 9223372036854775807 :=
+  ⟨(addCoins tierG (addCoins tierG init 0 [⟨"atom", 9223372036854775807⟩]).1 1 [⟨"atom", 5⟩]).1,
+   by decide, by decide, by decide⟩
+
+/-- `SetCoins` does not maintain the supply records either (genesis calls
+`RecomputeSupply` afterwards). -/
+theorem setCoins_alone_breaks_supply :
+    (setCoins tierG init 0 [⟨"atom", 5⟩]).2 = none ∧
+    getSupply (setCoins tierG init 0 [⟨"atom", 5⟩]).1 "atom" = 0 ∧
+    total (setCoins tierG init 0 [⟨"atom", 5⟩]).1 "atom" = 5 := by decide
+
 /-- `AddCoins` on its own is not a transaction-level operation: it credits without
 touching the supply record (by design — `MintCoins` pairs it with the counter), so a
 bare call breaks `supply = Σ balances`. -/
@@ -235,6 +318,12 @@ example : (run tierG init histG).supply = [("/gno.land/r/x:tok", 30), ("atom", 5
   decide
 
 example : Inv tierG (run tierG init histG) := inv_reachable _ _
+
+unseal addUnsafe in
+/-- the hypothesis of `genesis_establishes_inv` / `inv_after_genesis` is satisfiable. -/
+example : (genesis tierG [(0, [⟨"atom", 5⟩, ⟨"ugnot", 7⟩]), (1, [⟨"atom", 1⟩])]).2 = none ∧
+    (genesis tierG [(0, [⟨"atom", 5⟩, ⟨"ugnot", 7⟩]), (1, [⟨"atom", 1⟩])]).1.supply = [("atom", 6), ("ugnot", 7)] := by
+  decide
 
 unseal addUnsafe in
 /-- the hypotheses of `mint_changes_supply_exactly` / `burn_changes_supply_exactly`
